@@ -18,21 +18,25 @@ class Universe:
         self.defs: dict[str, dict] = {}
         self.root_of: dict[str, int] = {}
         self.dups: list[str] = []
+        self.all: list[tuple[int, dict]] = []  # every (root index, definition), duplicates included
         for ri, r in enumerate(self.roots):
             for d in r["defs"]:
                 k = T.def_key(d)
+                self.all.append((ri, d))
                 if k in self.defs:
                     self.dups.append(k)
+                    continue  # the first occurrence is the one the model talks about
                 self.defs[k] = d
                 self.root_of[k] = ri
         self.res = T.Resolver(self.defs)
 
     def file_of(self, key: str) -> str:
         """Logical path (relative to the scratch root) of the definition's file."""
-        d = self.defs[key]
-        r = self.roots[self.root_of[key]]
+        return self.file_of_def(self.root_of[key], self.defs[key])
+
+    def file_of_def(self, ri: int, d: dict) -> str:
         sub = d["name"].split(".")[1:-1]
-        return "/".join([r["dir"]] + sub + [T.file_name(d)])
+        return "/".join([self.roots[ri]["dir"]] + sub + [T.file_name(d)])
 
     def keys_of_root(self, ri: int) -> list[str]:
         return [T.def_key(d) for d in sorted(self.roots[ri]["defs"], key=sort_key)]
